@@ -45,17 +45,14 @@ Fixpoint is_prefix (p s : str) : bool :=
 
 Definition has (x bit : N) : bool := negb (N.eqb (N.land x bit) 0).
 
-(* vfs.go:582 ToOpenMode *)
+(* vfs.go ToOpenMode: the access mode comes from the two low bits of flag *)
 Definition to_open_mode (flag : N) : N :=
-  if N.eqb (N.land flag 4095) 0 then OpenRead
-  else
-    let om0 := if has flag O_RDWR then N.lor OpenRead OpenWrite else 0%N in
-    let om1 := if N.eqb (N.land flag (O_EXCL + O_CREATE)) (O_EXCL + O_CREATE)
-               then N.lor om0 (OpenCreate + OpenCreateExcl + OpenWrite) else om0 in
-    let om2 := if has flag O_CREATE then N.lor om1 (OpenCreate + OpenWrite) else om1 in
-    let om3 := if has flag O_APPEND then N.lor om2 (OpenAppend + OpenWrite) else om2 in
-    let om4 := if has flag O_TRUNC then N.lor om3 (OpenTruncate + OpenWrite) else om3 in
-    if has flag O_WRONLY then N.lor om4 OpenWrite else om4.
+  let acc := N.land flag 3 in
+  let om0 := if N.eqb acc 0 then OpenRead else if N.eqb acc 1 then OpenWrite else N.lor OpenRead OpenWrite in
+  let om1 := if has flag O_CREATE
+             then N.lor om0 (if has flag O_EXCL then OpenCreate + OpenCreateExcl else OpenCreate) else om0 in
+  let om2 := if has flag O_APPEND then N.lor om1 OpenAppend else om1 in
+  if has flag O_TRUNC then N.lor om2 OpenTruncate else om2.
 
 (* ---- errors ------------------------------------------------------------ *)
 (* vfs.err.* fields (value depends on the emulated OS), hard-coded avfs
@@ -169,6 +166,11 @@ Fixpoint search_loop (fuel : nat) (h : heap) (v : view) (slm : slmode) (vol pare
       else
         let name := pi_part pi1 in
         let last := pi_is_last pi1 in
+        if Nat.eqb parent vol && negb (match get h parent with
+                                      | Some n => check_permission (node_meta n) OpenLookup (v_user v)
+                                      | None => false end)
+        then {| sr_parent := Some parent; sr_child := None; sr_pi := out_pi pi1 saved; sr_err := EPermDenied |}
+        else
         match alookup str_eqb name (children h parent) with
         | None =>
             {| sr_parent := Some parent; sr_child := None; sr_pi := out_pi pi1 saved;
@@ -414,7 +416,8 @@ Definition open_file (s : fsys) (v : view) (view_ix : nat) (name : str) (flag pe
     let open_existing (c : nat) : fsys * (res + handle) :=
       match get h c with
       | Some (NFile d k i m) =>
-          if negb (check_permission m om (v_user v)) then (s, inl (RFail EPermDenied))
+          if negb (check_permission m (if has om OpenTruncate then N.lor om OpenWrite else om) (v_user v))
+          then (s, inl (RFail EPermDenied))
           else if has om OpenCreateExcl then (s, inl (RFail EFileExists))
           else
             let d1 := if has om OpenTruncate then [] else d in
@@ -422,7 +425,7 @@ Definition open_file (s : fsys) (v : view) (view_ix : nat) (name : str) (flag pe
             (with_heap s (upd h c (NFile d1 k i m)), inr (new_handle c view_ix name at_ om))
       | Some (NDir _ m) =>
           if has om OpenCreateExcl then (s, inl (RFail EFileExists))
-          else if has om OpenWrite then (s, inl (RFail EIsADirectory))
+          else if has om OpenWrite || has om OpenCreate || has om OpenTruncate then (s, inl (RFail EIsADirectory))
           else if negb (check_permission m om (v_user v)) then (s, inl (RFail EPermDenied))
           else (s, inr (new_handle c view_ix name 0 om))
       | _ => (s, inr (new_handle c view_ix name 0 om))
@@ -432,7 +435,7 @@ Definition open_file (s : fsys) (v : view) (view_ix : nat) (name : str) (flag pe
       else match sr_parent r with
            | None => (s, inl RPanic)
            | Some parent =>
-               if negb (has om OpenWrite) || negb (perm_on h parent (N.lor OpenWrite OpenLookup) (v_user v))
+               if negb (perm_on h parent (N.lor OpenWrite OpenLookup) (v_user v))
                then (s, inl (RFail EPermDenied))
                else
                  let part := pi_part (sr_pi r) in
